@@ -309,8 +309,13 @@ class SymCtx:
                 self.vcs.append(VC(name, "unsat", 0.0, "trivial", pid))
             else:
                 # goal is literally False: violated iff the path is feasible
+                if self.ex.stop_after_failure and self.ex.failed:
+                    self.vcs.append(VC(name, "skipped", 0.0, "not attempted after an earlier VC of this instance failed", pid))
+                    return
                 r, m, secs, be = solver.check_sat([x for x, _ in self.path.facts] + self.path.pc, self.ex.budget)
                 self.vcs.append(VC(name, r, secs, be, pid, m, "goal is False on this path"))
+                if r != "unsat":
+                    self.ex.failed = True
             return
         if self.ex.stop_after_failure and self.ex.failed:
             self.vcs.append(VC(name, "skipped", 0.0, "not attempted after an earlier VC of this instance failed", pid))
